@@ -21,6 +21,8 @@
 #include "vharness.h"
 #include "common.h"
 #include "parser.h"
+#include <unistd.h>
+#include <sys/wait.h>
 
 #define MAXSCHED 512
 #define WALK_LIMIT 1000000
@@ -465,14 +467,71 @@ static void scenario(char *line)
     printf(" leak=%ld rel=ok\n", vh_live - live0);
 }
 
-int main(void)
+/* every scenario runs in a forked child, so that a sanitizer abort costs one line, not the batch: the parent
+   then prints "CRASH <sanitizer summary>" for it */
+static void crash_line(int status, const char *err)
+{
+    const char *keys[] = {"SUMMARY: AddressSanitizer: ", "runtime error: ", "SUMMARY: UndefinedBehaviorSanitizer: ", NULL};
+    int k;
+    printf("CRASH ");
+    for (k = 0; keys[k]; k++) {
+        const char *p = strstr(err, keys[k]);
+        if (p) {
+            const char *e = strchr(p, '\n');
+            size_t n = e ? (size_t)(e - p) : strlen(p);
+            if (n > 200) n = 200;
+            fwrite(p, 1, n, stdout);
+            putchar('\n');
+            return;
+        }
+    }
+    if (WIFSIGNALED(status)) printf("signal %d\n", WTERMSIG(status));
+    else printf("exit %d\n", WEXITSTATUS(status));
+}
+
+int main(int argc, char **argv)
 {
     char *line;
+    int nofork = argc > 1 && !strcmp(argv[1], "--nofork");
     xmpp_initialize();
     while ((line = vh_getline())) {
-        if (!line[0]) { puts(""); continue; }
-        scenario(line);
-        fflush(stdout);
+        if (!line[0]) { puts(""); fflush(stdout); continue; }
+        if (nofork) {
+            scenario(line);
+            fflush(stdout);
+            continue;
+        }
+        {
+            int pe[2];
+            pid_t pid;
+            static char err[65536];
+            size_t got = 0;
+            ssize_t r;
+            int status = 0;
+            fflush(stdout);
+            if (pipe(pe) != 0) return 3;
+            pid = fork();
+            if (pid < 0) return 3;
+            if (pid == 0) {
+                close(pe[0]);
+                dup2(pe[1], 2);
+                /* nothing of a line reaches the pipe before the line is complete */
+                setvbuf(stdout, NULL, _IOFBF, 1 << 24);
+                alarm(20);
+                scenario(line);
+                fflush(stdout);
+                _exit(0);
+            }
+            close(pe[1]);
+            while ((r = read(pe[0], err + got, sizeof(err) - 1 - got)) > 0) got += (size_t)r;
+            err[got] = 0;
+            close(pe[0]);
+            waitpid(pid, &status, 0);
+            if (!(WIFEXITED(status) && WEXITSTATUS(status) == 0)) {
+                crash_line(status, err);
+            }
+            fflush(stdout);
+        }
     }
     return 0;
 }
